@@ -2,10 +2,14 @@
 from . import core_check
 
 ASBUILT = ["del_marker_claims_reindented_line", "initial_is_line_numbers_only",
-           "stale_entry_applied_by_line_number"]
+           "stale_entry_applied_by_line_number", "irebase_pairs_by_position"]
 
-RENDERS = [("plain", "plain"), ("hostile", "plain"), ("crlf", "subdir"), ("nonl", "spaces"),
+# A file without a final newline makes the identity of its last line depend on its position (the same text is
+# "changed" for git when a line is appended after it), so that family is used only where every commit takes
+# the whole work tree and only notes of new lines are judged (C01); everywhere else lines keep one identity.
+RENDERS = [("plain", "plain"), ("hostile", "plain"), ("crlf", "subdir"), ("plain", "spaces"),
            ("multibyte", "unicode"), ("long", "plain"), ("tabs", "dashy"), ("plain", "quoted")]
+RENDERS_C01 = RENDERS + [("nonl", "spaces"), ("nonl", "plain")]
 
 
 def consts(files=("f",), sessions=("S1", "S2"), uid=5, lines=4, commits=2, steps=5, alphabet=(), init="base",
@@ -25,6 +29,7 @@ CARRY = ("edit", "ckpt", "commit_all", "reset_keep", "stash")
 DECORATED = ("edit", "ckpt", "commit_all", "readonly", "ckpt_repeat")
 AMEND = ("edit_ins", "edit_del", "ckpt", "commit_all", "amend")
 REWRITE = ("edit_ins", "ckpt", "commit_all", "branch", "switch", "rebase", "cherry", "squash")
+IREBASE = ("edit_ins", "ckpt", "commit_all", "branch", "switch", "irebase", "cherry_many")
 MIXED = ("edit", "ckpt", "add", "commit_all", "commit_staged", "reset_keep", "stash", "checkout_paths")
 
 PLANS = {
@@ -32,19 +37,19 @@ PLANS = {
         "clauses": ["C01_Exact", "C01_OnlyAdded"],
         "quick": [
             dict(name="base", consts=consts(alphabet=EDIT_COMMIT, steps=5), invariants=G_ALL, budget=260,
-                 variants=RENDERS),
+                 variants=RENDERS_C01),
             dict(name="unborn", consts=consts(alphabet=EDIT_COMMIT, steps=5, init="unborn", uid=4), invariants=G_ALL,
-                 budget=120, variants=RENDERS),
+                 budget=120, variants=RENDERS_C01),
         ],
         "thorough": [
             dict(name="base", consts=consts(alphabet=EDIT_COMMIT, steps=6), invariants=G_ALL, budget=2500,
-                 variants=RENDERS, per_tag=4, timeout=1800),
+                 variants=RENDERS_C01, per_tag=4, timeout=1800),
             dict(name="unborn", consts=consts(alphabet=EDIT_COMMIT, steps=6, init="unborn", uid=5), invariants=G_ALL,
-                 budget=1000, variants=RENDERS, per_tag=4, timeout=1800),
+                 budget=1000, variants=RENDERS_C01, per_tag=4, timeout=1800),
             dict(name="twofiles", consts=consts(files=("f", "g"), alphabet=EDIT_COMMIT, steps=6, uid=5, lines=3),
-                 invariants=G_ALL, budget=1000, variants=RENDERS, timeout=1800),
+                 invariants=G_ALL, budget=1000, variants=RENDERS_C01, timeout=1800),
             dict(name="walks", consts=consts(files=("f", "g"), alphabet=EDIT_COMMIT, steps=24, uid=24, lines=12,
-                                             commits=6), invariants=[], budget=600, variants=RENDERS,
+                                             commits=6), invariants=[], budget=600, variants=RENDERS_C01,
                  simulate="num=400,depth=30", workers=1),
         ],
     },
@@ -58,6 +63,9 @@ PLANS = {
             dict(name="rewrite", consts=consts(alphabet=REWRITE, steps=10, commits=7, uid=5, lines=5,
                                                sessions=("S1",)), invariants=G_ALL, budget=260,
                  variants=RENDERS[:4], per_tag=1),
+            dict(name="interactive", consts=consts(files=("f", "g"), alphabet=IREBASE, steps=9, commits=8, uid=5,
+                                                   lines=4, sessions=("S1",)), invariants=G_ALL, budget=200,
+                 variants=RENDERS[:3], per_tag=1),
         ],
         "thorough": [
             dict(name="carry", consts=consts(alphabet=CARRY, steps=7, commits=3, lines=3), invariants=G_ALL,
@@ -191,6 +199,9 @@ PLANS["C13"] = {
              twins=HOOKSMODE, per_tag=1),
         dict(name="destructive", consts=consts(alphabet=DESTRUCTIVE, steps=6, commits=3, lines=3), invariants=[],
              budget=120, variants=RENDERS[:2], twins=HOOKSMODE),
+        dict(name="interactive", consts=consts(files=("f", "g"), alphabet=IREBASE, steps=9, commits=8, uid=5, lines=4,
+                                               sessions=("S1",)), invariants=[], budget=120, variants=RENDERS[:2],
+             twins=HOOKSMODE, per_tag=1),
     ],
     "thorough": [
         dict(name="commit", consts=consts(alphabet=PARTIAL, steps=6, commits=3, lines=4), invariants=[], budget=800,
@@ -205,6 +216,9 @@ PLANS["C13"] = {
 PLANS["C15"] = {
     "clauses": TWIN,
     "quick": [
+        dict(name="interactive", consts=consts(files=("f", "g"), alphabet=IREBASE, steps=9, commits=8, uid=5, lines=4,
+                                               sessions=("S1",)), invariants=[], budget=160, variants=RENDERS[:2],
+             twins=NOFAST, per_tag=1),
         dict(name="rewrite", consts=consts(alphabet=REWRITE, steps=10, commits=7, uid=5, lines=5, sessions=("S1",)),
              invariants=[], budget=300, variants=RENDERS[:3], twins=NOFAST, per_tag=1),
     ],
